@@ -21,7 +21,37 @@ NA = {
     "C19": "pure function of (expression, variable order, point)",
 }
 
+_TRUST = "Trusted: SciPy/NumPy determinism for identical inputs (self-tested by run-twice digests), the shadow-state transitions in sim/executor.py (one line per user operation), the spec builder using only the public API."
+
 CLAIMED = {
+    "C06": dict(
+        category="exploration",
+        text="Seeded search over (problem, method, peer behaviour at the solver seam): real SciPy, SciPy with a truncated budget, and scripted answers from each method's own (success, status, message) table with feasible / constraint-violating / bound-violating points, including the SLSQP->trust-constr retry entry. Oracle OPTIMAL => feasible, evaluated with harness-side constraint objects and the shadow state's declared bounds, tolerance looser than optyx's own. Sampling; thorough tier sweeps the whole response-class table per scenario.",
+        design_ref="DESIGN.md §5/C06",
+        note=_TRUST + " Scripted answers are confined to combinations SciPy documents or was observed to produce.",
+        technique="deterministic simulation: solver-seam response injection (real / truncated / scripted peer)",
+    ),
+    "C07": dict(
+        category="exploration",
+        text="Same engine as C06 with maximise problems, constant terms, vector / matrix / symmetric-matrix variables and every termination path (OPTIMAL, MAX_ITERATIONS, INFEASIBLE, UNBOUNDED with a ray, FAILED with values, x=None). Oracle: objective_value = user's objective at the returned values; keys(values) = exactly the mentioned variables (from the harness's own AST); handles retrieve the right shape and position. For a fixed solver answer this is a pure function; the simulation contributes the answer space.",
+        design_ref="DESIGN.md §5/C07",
+        note=_TRUST,
+        technique="deterministic simulation: solver-seam response injection, self-consistency oracle",
+    ),
+    "C12": dict(
+        category="exploration",
+        text="Seeded histories interleaving Parameter/VectorParameter updates with solves (method switches), evaluations and calls of long-lived compiled callables (value, gradient, Jacobian, Hessian, CompiledExpression, dict function, symbolic gradient); parameters in 8 placements; recursion-threshold and LRU-size knobs put the same models on the iterative code paths. Each observation equals R1 (fresh model, fresh Parameters at current values, pristine process; tight) and R2 (parameters as Constants; tight pointwise, 5e-3 on optimal objective values of strictly convex members).",
+        design_ref="DESIGN.md §5/C12, §3.4",
+        note=_TRUST,
+        technique="deterministic simulation: seeded history machine vs pristine-process reference model",
+    ),
+    "C14": dict(
+        category="exploration",
+        text="Seeded histories with a target model and an adversarial prefix of models reusing its variable/parameter names (other values, bounds, domains, structure, bare leaves as cache keys), drop+gc for id reuse, floods past LRU capacity (knob-shrunk in quick, default 1024/4096 in thorough). Every observation on every model equals the same observation on that model alone in a pristine forked process.",
+        design_ref="DESIGN.md §5/C14",
+        note=_TRUST,
+        technique="deterministic simulation: seeded history machine with adversarial prefixes vs pristine-process reference",
+    ),
     "C13": dict(
         category="exploration",
         text="Seeded search over edit/solve/read histories on one Problem; every solve and read is compared tightly with the same call on a from-scratch build of the current logical state in a pristine forked process (status, values, objective, message, iteration count, the exact data handed to SciPy at the seam, warnings). Sampling, not proof: a clean batch is evidence.",
@@ -31,7 +61,7 @@ CLAIMED = {
     ),
 }
 
-PENDING = {p: "claimed in DESIGN.md; check not built yet at this commit (work in progress)" for p in ("C06","C07","C12","C14","C18","C20")}
+PENDING = {p: "claimed in DESIGN.md; check not built yet at this commit (work in progress)" for p in ("C18","C20")}
 
 
 def main():
